@@ -52,8 +52,12 @@ theorem gen_procs_balanced :
 theorem gen_coordinator_stops :
     (∀ b, Generated.C10.refusalStops = some b → b = true) ∧ (∀ b, Generated.C10.deferStops = some b → b = true) := by
   constructor <;> intro b hb
-  · unfold Generated.C10.refusalStops at hb; cases hb; rfl
-  · unfold Generated.C10.deferStops at hb; cases hb; rfl
+  · unfold Generated.C10.refusalStops at hb
+    cases hb
+    all_goals rfl
+  · unfold Generated.C10.deferStops at hb
+    cases hb
+    all_goals rfl
 
 /-- a handler body, from the process constructor on: Execute follows the constructor directly (no return in between,
     which would leave a constructor-held lock behind) and nothing stops the process afterwards (Execute already has) -/
